@@ -31,11 +31,16 @@ func fnKey(fn *ssa.Function) string {
 			return fmt.Sprintf("(%s%s.%s).%s", star, pkg, n.Obj().Name(), fn.Name())
 		}
 	}
+	if fn.Parent() != nil {
+		// anonymous function: parent key + "$N"
+		nm := fn.Name()
+		if i := strings.LastIndex(nm, "$"); i >= 0 {
+			return fnKey(fn.Parent()) + nm[i:]
+		}
+		return fnKey(fn.Parent()) + "$" + nm
+	}
 	if fn.Pkg != nil {
 		return fn.Pkg.Pkg.Path() + "." + fn.Name()
-	}
-	if fn.Parent() != nil {
-		return fnKey(fn.Parent()) + "$" + fn.Name()
 	}
 	return fn.String()
 }
@@ -558,6 +563,37 @@ func (e *Exec) modularCall(st *State, ct *Contract, sig *types.Signature, args [
 	for _, p := range mods {
 		e.havocLoc(st, p)
 	}
+	if ct.Attrs["calls-arg"] != "" {
+		// the callee may invoke a function argument any number of times: everything that function can
+		// change is havocked (its captured variables that it assigns, and the heap)
+		for _, a := range args {
+			cl, ok := a.(*Closure)
+			if !ok {
+				continue
+			}
+			e.havocAllHeap(st)
+			ms := &modSet{cells: map[*ssa.Alloc]bool{}, comps: map[string]string{}, iters: map[*ssa.Range]bool{}}
+			for _, b := range cl.Fn.Blocks {
+				for _, in := range b.Instrs {
+					if sti, ok := in.(*ssa.Store); ok {
+						root, _, _, _ := rootOf(sti.Addr)
+						if fv, ok := root.(*ssa.FreeVar); ok {
+							for i, f := range cl.Fn.FreeVars {
+								if f == fv {
+									if p, ok := cl.Bindings[i].(*Ptr); ok && p.Kind == pCell {
+										v := e.smt.fresh("hv."+p.Cell.name, e.ti.sortOf(p.Cell.typ))
+										st.cells[p.Cell] = v
+										e.assume(st, e.wellTypedDeep(st, p.Cell.typ, v))
+									}
+								}
+							}
+						}
+					}
+				}
+			}
+			_ = ms
+		}
+	}
 	var res Value
 	if ct.Pure && pureScalarK(sig, ct.Kind == "iface" || ct.Kind == "ext") {
 		e.pureAxioms(ct, sig)
@@ -664,6 +700,15 @@ func pureScalarK(sig *types.Signature, refs bool) bool {
 			return u.Info()&(types.IsInteger|types.IsBoolean|types.IsString) != 0
 		case *types.Pointer, *types.Interface:
 			return refs
+		case *types.Struct:
+			// struct values are heap-independent (datatype terms) as long as their fields are
+			for i := 0; i < u.NumFields(); i++ {
+				switch u.Field(i).Type().Underlying().(type) {
+				case *types.Slice, *types.Map, *types.Chan:
+					return false
+				}
+			}
+			return true
 		}
 		return false
 	}
